@@ -1,6 +1,24 @@
 #ifndef DRV_EXT_H
 #define DRV_EXT_H
-/* module-specific extensions of the fiber-regime driver */
+/* module-specific extensions of the fiber-regime driver (drivers/ext_<module>.c).
+ * Each extension registers itself from a constructor:
+ *
+ *   static int my_op(const char* fiber, const char* op, const char* a1, const char* a2) {...return 1 if handled}
+ *   static int my_obj(const char* kind, const char* name, long arg, void** obj) {...return 1 if handled}
+ *   static void my_setup(void) {...}
+ *   DRV_EXT_REGISTER(mymod, my_op, my_obj, my_setup)
+ */
+typedef struct drv_ext {
+  const char* name;
+  int (*op)(const char* fiber, const char* op, const char* a1, const char* a2);
+  int (*obj)(const char* kind, const char* name, long arg, void** obj);
+  void (*setup)(void);
+} drv_ext_t;
+void drv_ext_register(const drv_ext_t* e);
+#define DRV_EXT_REGISTER(nm, opf, objf, setupf)                                  \
+  static const drv_ext_t drv_ext_##nm = {#nm, opf, objf, setupf};                \
+  __attribute__((constructor)) static void drv_ext_ctor_##nm(void) { drv_ext_register(&drv_ext_##nm); }
+
 int drv_ext_op(const char* fiber, const char* op, const char* a1, const char* a2); /* 1 if handled */
 int drv_ext_obj(const char* kind, const char* name, long arg, void** obj);         /* 1 if handled */
 void drv_ext_setup(void);
